@@ -14,7 +14,7 @@ operations.  Where each card lands is stated per operation.
 from pyvc.contract import contract, P, A, OptIndex, Cards, ArgSpec
 from pyvc.ghost import implies, iff
 import contracts.engine as E
-from pokerkit.utilities import Rank, Suit
+from pokerkit.utilities import Rank, Suit, Card
 
 Q = 'pokerkit.state.State.'
 REFUSAL = (ValueError, UserWarning)
@@ -60,6 +60,24 @@ def rows_aligned(s):
 def supplied_cards_dealable(s, cards):
     """hypothesis of the statement: explicitly supplied known cards are cards not currently in play"""
     return all(not known(x) or not_in_play(s, x) >= 1 for x in cards)
+
+
+def named_cards(arg):
+    """the cards an operation argument names: None (the engine chooses), a count (the engine chooses that many), or the cards
+    themselves -- given as a sequence or as ONE bare Card object, which means the one-card sequence (C19: same meaning)"""
+    if arg is None or isinstance(arg, int):
+        return None
+    if isinstance(arg, Card):
+        return (arg,)
+    return tuple(arg)
+
+
+def asked_count(arg, default):
+    if arg is None:
+        return default
+    if isinstance(arg, int):
+        return arg
+    return len(named_cards(arg))
 
 
 class Base:
@@ -109,8 +127,13 @@ class Moves(Base):
 
 @contract(Q + 'burn_card', 'C06')
 class burn_card(Moves):
-    args = {'card': ArgSpec(kind='opt_cards', cap=1)}
+    args = {'card': ArgSpec(kind='cardslike', cap=2)}
     argnames = ('card',)
+
+    @P('C06', 'exactly the card that was named is burnt (one card; a bare Card object names itself, unknown or not); when none is '
+              'named the engine takes one')
+    def at_update_burns_what_was_named(card, op):
+        return implies(card is not None, named_cards(card) == (op.card,))
 
     @P('C06', 'burning a card: no card is duplicated or lost')
     def at_update_conserved(old, s, op, c):
@@ -120,13 +143,20 @@ class burn_card(Moves):
     def at_update_lands_on_burn_pile(old, s, op):
         return len(s.burn_cards) >= 1 and s.burn_cards[len(s.burn_cards) - 1] == op.card
 
-    at_call = {Q + '_update_dealing': ['at_update_conserved', 'at_update_lands_on_burn_pile']}
+    at_call = {Q + '_update_dealing': ['at_update_conserved', 'at_update_lands_on_burn_pile', 'at_update_burns_what_was_named']}
 
 
 @contract(Q + 'deal_hole', 'C06')
 class deal_hole(Moves):
-    args = {'cards': ArgSpec(kind='opt_cards_or_int', cap=2), 'player_index': OptIndex()}
+    args = {'cards': ArgSpec(kind='cardslike_or_int', cap=2), 'player_index': OptIndex()}
     argnames = ('cards', 'player_index')
+
+    @P('C06', 'the cards dealt are the cards that were named, or as many as were asked for (one when nothing is said); a count is a '
+              'natural number (a negative one is outside the documented argument domain: the code slices the dealable cards from the end)')
+    def at_update_deals_what_was_asked(cards, op):
+        return implies(not isinstance(cards, int) or cards >= 0,
+                       implies(named_cards(cards) is not None, tuple(op.cards) == named_cards(cards))
+                       and len(op.cards) == asked_count(cards, 1) and len(op.cards) >= 1)
 
     @P('C06', 'dealing hole cards: no card is duplicated or lost')
     def at_update_conserved(old, s, op, c):
@@ -138,13 +168,19 @@ class deal_hole(Moves):
         return (tuple(s.hole_cards[i]) == tuple(old.hole_cards[i]) + tuple(op.cards)
                 and all(tuple(s.hole_cards[j]) == tuple(old.hole_cards[j]) for j in range(s.player_count) if j != i))
 
-    at_call = {Q + '_update_dealing': ['at_update_conserved', 'at_update_lands_in_the_hand']}
+    at_call = {Q + '_update_dealing': ['at_update_conserved', 'at_update_lands_in_the_hand', 'at_update_deals_what_was_asked']}
 
 
 @contract(Q + 'deal_board', 'C06')
 class deal_board(Moves):
-    args = {'cards': ArgSpec(kind='opt_cards_or_int', cap=2)}
+    args = {'cards': ArgSpec(kind='cardslike_or_int', cap=2)}
     argnames = ('cards',)
+
+    @P('C06', 'the cards dealt are the cards that were named, or as many as were asked for')
+    def at_update_deals_what_was_asked(cards, op):
+        return implies(not isinstance(cards, int) or cards >= 0,
+                       implies(named_cards(cards) is not None, tuple(op.cards) == named_cards(cards))
+                       and implies(cards is not None, len(op.cards) == asked_count(cards, 0)) and len(op.cards) >= 1)
 
     @P('C06', 'dealing board cards: no card is duplicated or lost; they land on the boards')
     def at_update_conserved(old, s, op, c):
@@ -152,7 +188,7 @@ class deal_board(Moves):
                        total(s, c) == total(old, c) and on_boards(s, c) == on_boards(old, c) + cnt(op.cards, c)
                        and in_hands(s, c) == in_hands(old, c))
 
-    at_call = {Q + '_update_dealing': ['at_update_conserved']}
+    at_call = {Q + '_update_dealing': ['at_update_conserved', 'at_update_deals_what_was_asked']}
 
 
 @contract(Q + 'stand_pat_or_discard', 'C06')
